@@ -215,6 +215,7 @@ func (ro ChanReceive[T]) Ok() bool {
 // zero value for T.
 func (ro ChanReceive[T]) Read(ctx context.Context) (T, error) {
 	var zero T
+	verifAt(ctx, "fun.chan.before-select", "recv")
 	switch ro.mode {
 	case modeBlocking:
 		select {
@@ -344,6 +345,7 @@ func (sm ChanSend[T]) Write(ctx context.Context, it T) (err error) {
 		}
 	}()
 
+	verifAt(ctx, "fun.chan.before-select", "send")
 	switch sm.mode {
 	case modeBlocking:
 		select {
